@@ -18,6 +18,11 @@ def opening_stream(ctx):
     for i in range(6 if quick else 60):
         rs = rng.choice([1, 3, 20])
         bases.append(prefix.small_history(rng, rs, 7 if quick else 12))
+    # pipeline configurations: the rebuild on opening goes through decryption and verification of every header
+    for i, extra in enumerate([{"enc": "age"}, {"enc": "pgp", "sig": "pgp", "comp": "gzip"}] * (1 if quick else 4)):
+        h = prefix.small_history(rng, rng.choice([3, 20]), 6 if quick else 10)
+        h["config"] = dict(h["config"], **extra)
+        bases.append(h)
     bases = streams.replay_override(ctx, "history", bases)
     ph1 = hist.run_many([dict(h, calls=h["calls"] + [{"op": "nop", "obs": ["tape"]}]) for h in bases])
     comps = []
